@@ -188,19 +188,58 @@ def make_union(xml_elem):
         return model.Union(xml_elem.get('name'), members, docstring=get_docstr(xml_elem))
 
 
+REQUIRED_ATTRIBUTES = (
+    ('.//constant', ('name', 'value'), None),
+    ('.//typedef', ('name',), None),
+    ('.//enum', ('name',), ('name', 'value')),
+    ('.//struct', ('name',), ('name', 'type')),
+    ('.//message', ('name',), ('name', 'type')),
+    ('.//union', ('name',), ('name', 'type', 'discriminatorValue')),
+)
+
+
+def find_malformed_elements(root):
+    """Yields messages about definitions which lack attributes the parser can't do without."""
+    def check(elem, required):
+        for attribute in required:
+            if elem.get(attribute) is None:
+                yield "element <%s%s> lacks '%s' attribute" % (
+                    elem.tag, elem.get('name') and ' name="%s"' % elem.get('name') or '', attribute)
+
+    for path, required, required_in_members in REQUIRED_ATTRIBUTES:
+        for elem in root.iterfind(path):
+            if required_in_members and not len(elem):
+                continue
+            for msg in check(elem, required):
+                yield msg
+            for member in (required_in_members and list(elem) or ()):
+                for msg in check(member, required_in_members):
+                    yield msg
+            if path == './/typedef' and 'type' not in elem.attrib and 'primitiveType' in elem.attrib:
+                if elem.get('primitiveType') not in primitive_types:
+                    yield "typedef '%s' has unknown primitiveType '%s'" % (elem.get('name'), elem.get('primitiveType'))
+
+
 class IsarParser(object):
 
     def __init__(self, warn=None):
         self.warn = warn
 
-    def parse(self, content, _, process_file):
+    def parse(self, content, path, process_file):
         # by default FileProcessor decodes files while opening in _process_file method,
         # but ElementTree doesn't like it. ElementTree handles the encoding on its own,
         # so it's OK to encode the data back into utf-8 before parsing
         content = content.encode('utf-8')
 
-        def collect():
+        try:
             root = ElementTree.fromstring(content)
+        except ElementTree.ParseError as e:
+            raise model.ParseError([(path, "malformed xml: %s" % e)])
+        malformed = list(find_malformed_elements(root))
+        if malformed:
+            raise model.ParseError([(path, msg) for msg in malformed])
+
+        def collect():
             for xml_elem in root.iterfind('.//*[@href]'):
                 yield make_include(xml_elem, process_file, self.warn)
 
